@@ -120,17 +120,15 @@ def run(ctx):
         if got != want:
             raise vlib.MachineryError("binding self-test failed: expected rejections %s, got %s" % (sorted(want), sorted(got)))
 
-    nontrivial = sum(1 for e in events if e["ev"] in ("num", "intdec", "rp") and e["x"]["f"] != 0)
     samples = [events[k]["lit"] + " -> " + json.dumps(events[k]["res"]) for k in (k1, k2, k3) if k is not None]
     samples += [events[k]["lit"] + " -> " + json.dumps(events[k]["res"]) for k in (5, 900, 2500) if k < len(events)]
     ctx.cover(
         evaluations=res["lines"], evaluations_decided=res["checked"], evaluations_undecided=res["undecided"],
-        by_kind={k: v for k, v in counts.items() if not k.startswith("res_")},
+        by_kind={k: v for k, v in counts.items() if not k.startswith("res_") and k != "nontrivial"},
         results_by_kind={k[4:]: v for k, v in counts.items() if k.startswith("res_")},
-        distinct_nontrivial=int(nontrivial * (res["lines"] / max(1, len(events)))) if len(events) < res["lines"] else nontrivial,
-        nontrivial_in_first_3000=nontrivial,
-        rule="one evaluation = one (built-in, argument) pair; non-trivial = numeric built-in on a non-integral argument "
-             "(counted on the first 3000 events and scaled to the run)",
+        distinct_nontrivial=counts["nontrivial"],
+        rule="one evaluation = one (built-in, argument) pair; non-trivial = distinct pairs of a numeric built-in (floor ceil inc dec integer "
+             "decimal round integer+decimal round_places) with a non-integral argument, counted by the recorder",
         traces_validated_against_impl=res["lines"],
         violations_by_class=dict(rep.per), suppressed_duplicates=rep.suppressed,
         nonvacuity=nonvac, binding_selftest=selftest, samples=samples,
